@@ -37,6 +37,15 @@ Proof.
     + intro H. split; [apply H; left; reflexivity|intros x Hx; apply H; right; exact Hx].
 Qed.
 
+(* the kind of the schema a struct / tuple / unit entry came from *)
+Definition te_kind (s : schema) (te : details) : Prop :=
+  match te with
+  | DStruct _ _ _ dn => classify_s s = Some (false, KStruct dn)
+  | DTuple _ => classify_s s = Some (false, KTuple)
+  | DUnit => classify_s s = Some (false, KNull)
+  | _ => True
+  end.
+
 Definition AllP2 {X Y} (P : X -> Y -> Prop) : list X -> list Y -> Prop :=
   fix go (l : list X) (m : list Y) : Prop :=
     match l, m with
@@ -72,9 +81,58 @@ Section Shape.
          (exists t', has (p_ty p) (DOption t') /\ sh (snd kv) t' /\
                      forall d, has t' d -> intrinsic d = false)))).
 
+    (* the members of a struct (or of a struct variant) for the properties of an object schema *)
+    Definition struct_sh (props : list (ustring * schema)) (req : list ustring) (ps : list prop) : Prop :=
+      NoDup (wire_names ps) /\ NoDup (map p_name ps) /\
+      AllP (fun kv => exists p, In p ps /\ member_sh req kv p) props /\
+      (forall p, In p ps -> exists kv, In kv props /\ wire_name p = Some (fst kv)).
+
+    (* the data of the variant for the payload schema [sc] (enums.rs external_variant): a tuple or a struct is
+       dissolved into the variant, anything else is a newtype variant; [deny] is the ENUM's flag *)
+    Definition payload_sh (sc : schema) (deny : bool) (vd : vdetails) : Prop :=
+      match vd with
+      | VSimple => False
+      | VItem t' => sh sc t'
+      | VTuple ts =>
+          classify_s sc = Some (false, KTuple) /\
+          match sc with
+          | SObj _ _ _ _ _ _ _ its _ _ _ _ _ _ _ _ _ _ _ _ _ _ _ _ => AllP2 sh its ts
+          | SBool _ => False
+          end
+      | VStruct ps =>
+          classify_s sc = Some (false, KStruct deny) /\
+          match sc with
+          | SObj _ _ _ _ _ _ _ _ _ _ _ _ bprops breq _ _ _ _ _ _ _ _ _ _ => struct_sh bprops breq ps
+          | SBool _ => False
+          end
+      end.
+
+    (* one branch of an externally tagged oneOf against the variants *)
+    Definition branch_sh (vs : list variant) (deny : bool) (b : schema) : Prop :=
+      match b with
+      | SObj _ _ _ _ _ _ _ _ _ _ _ _ bprops _ _ _ _ _ _ _ _ _ _ _ =>
+          match bprops with
+          | [(v, sc)] => exists vr, In vr vs /\ v_raw vr = v /\ payload_sh sc deny (v_det vr)
+          | _ => forall raws, xsimple b = Some raws ->
+                 forall x, In x raws -> exists vr, In vr vs /\ v_raw vr = x /\ v_det vr = VSimple
+          end
+      | SBool _ => True
+      end.
+
     Definition kshape (k : kind) (items : list schema) (props : list (ustring * schema))
-               (req : list ustring) (ap : option schema) (t : id) : Prop :=
+               (req : list ustring) (ap : option schema) (oneo : option (list schema)) (t : id) : Prop :=
       match k with
+      | KOne tg =>
+          match oneo with
+          | Some bs =>
+              exists n vs deny bes names ids,
+                has t (DEnum n None tg vs deny bes) /\
+                xall_names bs = Some names /\ NoDup names /\
+                Sanitize.variant_idents cls names = Sanitize.Ok ids /\
+                map v_raw vs = names /\ map v_ident vs = ids /\
+                AllP (branch_sh vs deny) bs
+          | None => False
+          end
       | KBool => has t DBoolean
       | KStr => has t DString
       | KNull => has t DUnit
@@ -85,10 +143,7 @@ Section Shape.
           exists n ids, Sanitize.variant_idents cls raws = Sanitize.Ok ids /\
                         has t (DEnum n None TagExternal (mk_variants raws ids) false [AllSimpleVariants])
       | KStruct deny =>
-          exists n ps, has t (DStruct n None ps deny) /\
-                       NoDup (wire_names ps) /\ NoDup (map p_name ps) /\
-                       AllP (fun kv => exists p, In p ps /\ member_sh req kv p) props /\
-                       (forall p, In p ps -> exists kv, In kv props /\ wire_name p = Some (fst kv))
+          exists n ps, has t (DStruct n None ps deny) /\ struct_sh props req ps
       | KMap =>
           exists kid vid, has t (DMap kid vid) /\ has kid DString /\
                           match ap with
@@ -111,9 +166,26 @@ Section Shape.
         fun t =>
         match classify ty fmt enum cst nv sv ik items ai mni mxi uq props req ap mnp mxp allo anyo oneo no ref dflt title with
         | None => False
-        | Some (false, k) => kshape shape k items props req ap t
-        | Some (true, k) => exists i, has t (DOption i) /\ kshape shape k items props req ap i
+        | Some (false, k) => kshape shape k items props req ap oneo t
+        | Some (true, k) => exists i, has t (DOption i) /\ kshape shape k items props req ap oneo i
         end
+    end.
+
+  (* what a struct / tuple / unit type entry says about the schema it came from (needed where the
+     entry is dissolved into an enum variant instead of being assigned an id) *)
+  Definition payload_of (s : schema) (te : details) : Prop :=
+    match te with
+    | DStruct _ _ ps dn =>
+        match s with
+        | SObj _ _ _ _ _ _ _ _ _ _ _ _ bprops breq _ _ _ _ _ _ _ _ _ _ => struct_sh shape bprops breq ps
+        | SBool _ => False
+        end
+    | DTuple ts =>
+        match s with
+        | SObj _ _ _ _ _ _ _ its _ _ _ _ _ _ _ _ _ _ _ _ _ _ _ _ => AllP2 shape its ts
+        | SBool _ => False
+        end
+    | _ => True
     end.
 
   (* a definition: its schema's shape, or an alias newtype around it *)
@@ -134,7 +206,14 @@ Section Ok.
   Definition det_ok (look : id -> option entry) (d : details) : Prop :=
     match d with
     | DStruct _ _ ps _ => RoundTrip.props_ok ps = true /\ forall p, In p ps -> idok look (p_ty p)
-    | DEnum _ _ TagExternal vs _ _ => forall v, In v vs -> v_det v = VSimple
+    | DEnum _ _ TagExternal vs _ _ =>
+        forall v, In v vs ->
+        match v_det v with
+        | VSimple => True
+        | VItem t => idok look t
+        | VTuple ts => forall t, In t ts -> idok look t
+        | VStruct ps => RoundTrip.props_ok ps = true /\ forall p, In p ps -> idok look (p_ty p)
+        end
     | DOption t => idok look t /\ forall e, look t = Some e -> not_option e
     | DVec t | DSet t | DArray t _ => idok look t
     | DTuple ts => forall t, In t ts -> idok look t
@@ -170,6 +249,10 @@ Section Ok.
     intros Hm Hdef.
     destruct d as [? ? tag ? ? ?|? ? ? ?|? ? t c|? ? ?|t|?|t|? ?|t|t ?|ts| | |?|?| | |?];
       cbn [det_ok]; try exact (fun H => H).
+    - destruct tag; try exact (fun H => H). intros H v Hv. specialize (H v Hv).
+      destruct (v_det v) as [|t|ts|ps]; [exact I|eapply idok_mono; eassumption| |].
+      + intros t Ht. eapply idok_mono; [exact Hm|exact (H t Ht)].
+      + destruct H as [H1 H2]. split; [exact H1|]. intros p Hp. eapply idok_mono; [exact Hm|exact (H2 p Hp)].
     - intros [H1 H2]. split; [exact H1|]. intros p Hp. eapply idok_mono; [exact Hm|apply H2; exact Hp].
     - destruct c; try exact (fun H => H); apply idok_mono; exact Hm.
     - intros [H1 H2]. split; [eapply idok_mono; eassumption|].
@@ -291,6 +374,8 @@ Section ShapeMain.
     sp_names : exists L, names_of cls s nm = own_of te ++ L /\ names_sub s0 s1 L;
     sp_ents : ents_ok nD (lk s1);
     sp_te : te_ok nD (lk s1) te;
+    sp_kind : te_kind s te;
+    sp_payload : forall T, ext s1 T -> DefsNamed T -> payload_of cls D T s te;
     sp_shape : forall T, ext s1 T -> DefsNamed T -> forall t, realizes (get T) t te -> shape cls D T s t }.
 
   Definition SP (s : schema) : Prop :=
@@ -314,7 +399,7 @@ Section ShapeMain.
     SPostA s nm s0 t s2.
   Proof.
     intros HP Hf nm s0 te s1 t s2 Hc Ha Hw Hnx Hg Hnd Hfr.
-    destruct (HP Hf nm s0 te s1 Hc Hw Hnx Hg Hnd Hfr) as [Hw1 Hf1 (L & HL & Hns) Hg1 Hte HS].
+    destruct (HP Hf nm s0 te s1 Hc Hw Hnx Hg Hnd Hfr) as [Hw1 Hf1 (L & HL & Hns) Hg1 Hte _ _ HS].
     assert (Hfresh : forall n, det_name te = Some n -> ~ In n (nkeys s1)).
     { intros n Hn Hin. unfold own_of in HL. rewrite Hn in HL.
       destruct (Hns n Hin) as [H|H].
@@ -440,30 +525,50 @@ Section ShapeMain.
   Qed.
 
   (* ---------------------------------------------------------------- one kind *)
+  Definition kkind (k : kind) (te : details) : Prop :=
+    match te with
+    | DStruct _ _ _ dn => k = KStruct dn
+    | DTuple _ => k = KTuple
+    | DUnit => k = KNull
+    | _ => True
+    end.
+  Definition kpayload (T : space) (items : list schema) (props : list (ustring * schema)) (req : list ustring)
+             (te : details) : Prop :=
+    match te with
+    | DStruct _ _ ps _ => struct_sh cls T (shape cls D T) props req ps
+    | DTuple ts => AllP2 (shape cls D T) items ts
+    | _ => True
+    end.
+
   Record KSPost (items : list schema) (props : list (ustring * schema)) (req : list ustring) (ap : option schema)
+         (oneo : option (list schema))
          (k : kind) (nm' : name) (s0 : st) (te : details) (s1 : st) : Prop := {
     ks_wf : wf s1;
     ks_frame : frame s0 s1;
     ks_own : own_names cls nm' k = own_of te;
-    ks_names : names_sub s0 s1 (sub_names cls k nm' items props ap);
+    ks_names : names_sub s0 s1 (sub_names cls k nm' items props ap oneo);
     ks_ents : ents_ok nD (lk s1);
     ks_te : te_ok nD (lk s1) te;
     ks_nonopt : match te with DOption _ => False | _ => True end;
+    ks_kind : kkind k te;
+    ks_payload : forall T, ext s1 T -> DefsNamed T -> kpayload T items props req te;
     ks_shape : forall T, ext s1 T -> DefsNamed T -> forall t, realizes (get T) t te ->
-                 kshape cls D T (shape cls D T) k items props req ap t }.
+                 kshape cls D T (shape cls D T) k items props req ap oneo t }.
 
-  Lemma scalar_kspost items props req ap k nm' s0 te :
+  Lemma scalar_kspost items props req ap oneo k nm' s0 te :
     wf s0 -> ents_ok nD (lk s0) ->
-    own_names cls nm' k = [] -> sub_names cls k nm' items props ap = [] -> det_name te = None ->
+    own_names cls nm' k = [] -> sub_names cls k nm' items props ap oneo = [] -> det_name te = None ->
     det_ok nD (lk s0) te ->
-    match te with DOption _ | DReference _ => False | _ => True end ->
-    (forall T t, get_det T t = Some te -> kshape cls D T (shape cls D T) k items props req ap t) ->
-    KSPost items props req ap k nm' s0 te s0.
+    match te with DOption _ | DReference _ | DStruct _ _ _ _ | DTuple _ => False | _ => True end ->
+    kkind k te ->
+    (forall T t, get_det T t = Some te -> kshape cls D T (shape cls D T) k items props req ap oneo t) ->
+    KSPost items props req ap oneo k nm' s0 te s0.
   Proof.
-    intros Hw Hg Ho Hs Hn Hd Hnr HS.
-    split; [exact Hw|apply frame_refl|unfold own_of; rewrite Hn; exact Ho|apply names_sub_refl|exact Hg| | |].
+    intros Hw Hg Ho Hs Hn Hd Hnr Hkk HS.
+    split; [exact Hw|apply frame_refl|unfold own_of; rewrite Hn; exact Ho|rewrite Hs; apply names_sub_refl|exact Hg| | |exact Hkk| |].
     - destruct te; try contradiction; exact Hd.
     - destruct te; try contradiction; exact I.
+    - intros T _ _. destruct te; try contradiction; exact I.
     - intros T He Hp t Hr. apply HS.
       destruct te; try contradiction; cbn [realizes] in Hr; exact (get_det_of _ _ _ _ Hr).
   Qed.
@@ -537,19 +642,241 @@ Section ShapeMain.
     split; [destruct pat; intros n Hn; exact (Hns1 n Hn)|]. split; [exact Hg1|]. split; [exact Hid1|exact Hr1].
   Qed.
 
-  Lemma kind_shape items props req ap k nm' s0 te s1
-      (Hfk : frag_kind cls D k items props req ap = true)
+  (* ---------------------------------------------------------------- the variants of a tagged oneOf *)
+  Definition vd_ok (look : id -> option entry) (vd : vdetails) : Prop :=
+    match vd with
+    | VSimple => True
+    | VItem t => idok nD look t
+    | VTuple ts => forall t, In t ts -> idok nD look t
+    | VStruct ps => RoundTrip.props_ok ps = true /\ forall p, In p ps -> idok nD look (p_ty p)
+    end.
+
+  Lemma vd_ok_mono look look' vd :
+    (forall i e, look i = Some e -> look' i = Some e) -> vd_ok look vd -> vd_ok look' vd.
+  Proof.
+    intros Hm. destruct vd as [|t|ts|ps]; cbn [vd_ok]; [exact (fun H => H)|apply idok_mono; exact Hm| |].
+    - intros H t Ht. eapply idok_mono; [exact Hm|exact (H t Ht)].
+    - intros [H1 H2]. split; [exact H1|]. intros p Hp. eapply idok_mono; [exact Hm|exact (H2 p Hp)].
+  Qed.
+
+  Definition own_deny (sc : schema) : bool := match struct_deny sc with Some d => d | None => false end.
+  Definition bs_deny (bs : list schema) : bool := existsb own_deny (xpayloads bs).
+
+  Definition rv_rel (T : space) (rvs : list (ustring * vdetails)) (b : schema) : Prop :=
+    match b with
+    | SObj _ _ _ _ _ _ _ _ _ _ _ _ bprops _ _ _ _ _ _ _ _ _ _ _ =>
+        match bprops with
+        | [(v, sc)] => exists vd, In (v, vd) rvs /\ payload_sh cls T (shape cls D T) sc (own_deny sc) vd
+        | _ => forall raws, xsimple b = Some raws -> forall x, In x raws -> In (x, VSimple) rvs
+        end
+    | SBool _ => True
+    end.
+
+  Lemma rv_rel_mono T rvs rvs' b : incl rvs rvs' -> rv_rel T rvs b -> rv_rel T rvs' b.
+  Proof.
+    intro Hi. destruct b as [|ty fmt enum cst nv sv ik items ai mni mxi uq props req ap mnp mxp allo anyo oneo no ref dflt title];
+      [exact (fun H => H)|]. cbn [rv_rel].
+    destruct props as [|[v sc] [|]].
+    - intros H raws Hx x Hin. apply Hi. exact (H raws Hx x Hin).
+    - intros (vd & Hin & Hp). exists vd. split; [apply Hi; exact Hin|exact Hp].
+    - intros H raws Hx x Hin. apply Hi. exact (H raws Hx x Hin).
+  Qed.
+
+  (* a struct schema converts to a struct entry *)
+  Lemma conv_struct_te sc nm s0 te s1 d :
+    cvf sc nm s0 = Some (te, s1) -> classify_s sc = Some (false, KStruct d) -> exists n ps, te = DStruct n None ps d.
+  Proof.
+    destruct sc as [[|]|ty fmt enum cst nv sv ik items ai mni mxi uq props req ap mnp mxp allo anyo oneo no ref dflt title];
+      try discriminate.
+    cbn [conv classify_s]. intros Hc Hcl. rewrite Hcl in Hc. cbn [conv_node conv_kind] in Hc.
+    destruct (type_name cls nm) as [base|]; [|discriminate].
+    destruct (conv_props cls cvf base req props s0) as [[ps sa]|]; [|discriminate].
+    destruct (Sanitize.unique _); [|discriminate]. injection Hc as <- _. eexists _, _. reflexivity.
+  Qed.
+
+  Lemma own_deny_other sc nm s0 te s1 :
+    cvf sc nm s0 = Some (te, s1) -> (forall n d ps dn, te <> DStruct n d ps dn) -> own_deny sc = false.
+  Proof.
+    intros Hc Hns. unfold own_deny, struct_deny.
+    destruct (classify_s sc) as [[[|] k]|] eqn:Hcl; try reflexivity. destruct k; try reflexivity.
+    destruct (conv_struct_te sc nm s0 te s1 deny Hc Hcl) as (n & ps & ->). exfalso. eapply Hns. reflexivity.
+  Qed.
+
+  Lemma conv_xvar_shape nm v sc : SP sc -> frag cls keys sc = true -> classify_s sc <> Some (false, KNull) ->
+    forall s0 vd dn s1, conv_xvar cvf nm v sc s0 = Some (vd, dn, s1) -> wf s0 -> nD < st_next s0 -> ents_ok nD (lk s0) ->
+    NoDup (names_of cls sc (append_name nm v)) ->
+    (forall n, In n (names_of cls sc (append_name nm v)) -> ~ In n (nkeys s0)) ->
+    wf s1 /\ frame s0 s1 /\ names_sub s0 s1 (names_of cls sc (append_name nm v)) /\ ents_ok nD (lk s1) /\
+    vd_ok (lk s1) vd /\ dn = own_deny sc /\
+    forall T, ext s1 T -> DefsNamed T -> payload_sh cls T (shape cls D T) sc (own_deny sc) vd.
+  Proof.
+    intros HP Hf Hnn s0 vd dn s1 Hc Hw Hnx Hg Hnd Hfr. unfold conv_xvar in Hc.
+    destruct (cvf sc (append_name nm v) s0) as [[te sa]|] eqn:Hcv; [|discriminate].
+    pose proof (HP Hf _ _ _ _ Hcv Hw Hnx Hg Hnd Hfr) as [Hw1 Hf1 (L & HL & Hns) Hg1 Hte Hkd HPy HS].
+    assert (HnsL : names_sub s0 sa (names_of cls sc (append_name nm v))).
+    { eapply names_sub_weaken; [exact Hns|]. rewrite HL. apply incl_appr, incl_refl. }
+    assert (Hother : forall t s2, assign te sa = (t, s2) -> (forall n d ps dn', te <> DStruct n d ps dn') ->
+              Some (VItem t, false, s2) = Some (vd, dn, s1) ->
+              wf s1 /\ frame s0 s1 /\ names_sub s0 s1 (names_of cls sc (append_name nm v)) /\ ents_ok nD (lk s1) /\
+              vd_ok (lk s1) vd /\ dn = own_deny sc /\
+              forall T, ext s1 T -> DefsNamed T -> payload_sh cls T (shape cls D T) sc (own_deny sc) vd).
+    { intros t s2 Ha Hns' H. injection H as <- <- <-.
+      destruct (SP_assign sc HP Hf _ _ _ _ _ _ Hcv Ha Hw Hnx Hg Hnd Hfr) as [Hw2 Hf2 Hns2 Hg2 Hid2 HS2].
+      split; [exact Hw2|]. split; [exact Hf2|]. split; [exact Hns2|]. split; [exact Hg2|].
+      split; [exact Hid2|]. split; [symmetry; exact (own_deny_other _ _ _ _ _ Hcv Hns')|].
+      intros T He Hp. cbn [payload_sh]. exact (HS2 T He Hp). }
+    destruct te as [? ? ? ? ? ?|n0 d0 ps dn0|? ? ? ?|? ? ?|?|?|?|? ?|?|? ?|ts| | |?|?| | |r0];
+      try (destruct (assign _ sa) as [t9 s9] eqn:Ha; refine (Hother t9 s9 eq_refl _ Hc); discriminate).
+    - (* a struct: dissolved *)
+      injection Hc as <- <- <-. cbn [te_kind] in Hkd.
+      assert (Hod : own_deny sc = dn0) by (unfold own_deny, struct_deny; rewrite Hkd; reflexivity).
+      split; [exact Hw1|]. split; [exact Hf1|]. split; [exact HnsL|]. split; [exact Hg1|].
+      split; [exact Hte|]. split; [symmetry; exact Hod|].
+      intros T He Hp. cbn [payload_sh]. rewrite Hod. split; [exact Hkd|]. exact (HPy T He Hp).
+    - (* a tuple: dissolved *)
+      injection Hc as <- <- <-. cbn [te_kind] in Hkd.
+      assert (Hod : own_deny sc = false) by (unfold own_deny, struct_deny; rewrite Hkd; reflexivity).
+      split; [exact Hw1|]. split; [exact Hf1|]. split; [exact HnsL|]. split; [exact Hg1|].
+      split; [exact Hte|]. split; [symmetry; exact Hod|].
+      intros T He Hp. cbn [payload_sh]. split; [exact Hkd|]. exact (HPy T He Hp).
+    - (* unit: excluded *)
+      cbn [te_kind] in Hkd. contradiction.
+  Qed.
+
+  Lemma one_names_cons nm b r :
+    one_names cls nm (b :: r) = one_fold (fun v sc => names_of cls sc (append_name nm v)) [] b ++ one_names cls nm r.
+  Proof. reflexivity. Qed.
+
+  Lemma xpayloads_simple es r : xpayloads (xsimple_sch es :: r) = xpayloads r.
+  Proof. reflexivity. Qed.
+  Lemma xpayloads_typed v sc r : xpayloads (xbranch v sc :: r) = sc :: xpayloads r.
+  Proof. unfold xpayloads. cbn [flat_map]. rewrite xtyped_sch. reflexivity. Qed.
+
+  Lemma conv_xbranches_shape nm : forall bs names,
+    Forall (PayP SP) bs -> xall_names bs = Some names -> one_frags cls D bs = true ->
+    (forall sc, In sc (xpayloads bs) -> classify_s sc <> Some (false, KNull)) ->
+    forall s0 rvs dn s1, conv_xbranches cvf nm bs s0 = Some (rvs, dn, s1) -> wf s0 -> nD < st_next s0 ->
+    ents_ok nD (lk s0) ->
+    NoDup (one_names cls nm bs) -> (forall n, In n (one_names cls nm bs) -> ~ In n (nkeys s0)) ->
+    wf s1 /\ frame s0 s1 /\ names_sub s0 s1 (one_names cls nm bs) /\ ents_ok nD (lk s1) /\
+    (forall rv, In rv rvs -> vd_ok (lk s1) (snd rv)) /\ dn = bs_deny bs /\
+    forall T, ext s1 T -> DefsNamed T -> AllP (rv_rel T rvs) bs.
+  Proof.
+    induction bs as [|b r IH]; intros names HP Hn Hf Hnn s0 rvs dn s1 Hc Hw Hnx Hg Hnd Hfr.
+    - cbn in Hc. injection Hc as <- <- <-.
+      split; [exact Hw|]. split; [apply frame_refl|]. split; [apply names_sub_refl|]. split; [exact Hg|].
+      split; [intros rv []|]. split; [reflexivity|]. intros T _ _. exact I.
+    - destruct (xall_names_cons b r names Hn) as (l & rest & Hb & Hr & ->).
+      rewrite one_frags_cons in Hf. apply andb_true_iff in Hf. destruct Hf as [Hf1 Hf2].
+      rewrite one_names_cons in Hnd, Hfr.
+      destruct (xnames_cases b l Hb) as [(es & -> & Hj & Hne)|(v & sc & -> & ->)].
+      + rewrite conv_xbranches_simple, (xsimple_sch_spec es l Hj Hne) in Hc.
+        destruct (conv_xbranches cvf nm r s0) as [[[vs2 d2] s2]|] eqn:Hrr; [|discriminate].
+        injection Hc as <- <- <-. cbn [one_fold xsimple_sch app] in Hnd, Hfr.
+        rewrite xpayloads_simple in Hnn.
+        destruct (IH rest (Forall_inv_tail HP) Hr Hf2 Hnn s0 vs2 d2 s2 Hrr Hw Hnx Hg Hnd Hfr)
+          as (Hw2 & Hfr2 & Hns2 & Hg2 & Hvd2 & Hd2 & HR2).
+        split; [exact Hw2|]. split; [exact Hfr2|]. split; [rewrite one_names_cons; exact Hns2|]. split; [exact Hg2|].
+        split; [|split].
+        * intros rv Hin. apply in_app_or in Hin. destruct Hin as [Hin|Hin]; [|exact (Hvd2 rv Hin)].
+          apply in_map_iff in Hin. destruct Hin as (x & <- & _). exact I.
+        * unfold bs_deny. rewrite xpayloads_simple. exact Hd2.
+        * intros T He Hp. cbn [AllP]. split.
+          -- cbn [rv_rel xsimple_sch]. intros raws Hx x Hin. rewrite (xsimple_sch_spec es l Hj Hne) in Hx.
+             injection Hx as <-. apply in_or_app. left. apply in_map_iff. exists x. split; [reflexivity|exact Hin].
+          -- apply AllP_In. intros b' Hb'. eapply rv_rel_mono; [apply incl_appr, incl_refl|].
+             exact (proj1 (AllP_In _ _) (HR2 T He Hp) b' Hb').
+      + rewrite conv_xbranches_typed in Hc. cbn [one_fold xbranch] in Hf1, Hnd, Hfr.
+        destruct (conv_xvar cvf nm v sc s0) as [[[vd deny] sa]|] eqn:Hv; [|discriminate].
+        destruct (conv_xbranches cvf nm r sa) as [[[vs2 d2] s2]|] eqn:Hrr; [|discriminate].
+        injection Hc as <- <- <-.
+        rewrite xpayloads_typed in Hnn.
+        destruct (conv_xvar_shape nm v sc (Forall_inv HP v sc (xtyped_sch v sc)) Hf1 (Hnn sc (or_introl eq_refl))
+                    s0 vd deny sa Hv Hw Hnx Hg (NoDup_app_l _ _ Hnd))
+          as (Hwa & Hfa & Hnsa & Hga & Hvda & Hda & HSa).
+        { intros n Hin. apply Hfr. apply in_or_app. left. exact Hin. }
+        assert (Hnxa : nD < st_next sa) by (destruct Hfa as [Hx _]; lia).
+        destruct (IH rest (Forall_inv_tail HP) Hr Hf2 (fun sc' H => Hnn sc' (or_intror H)) sa vs2 d2 s2 Hrr Hwa Hnxa Hga
+                    (NoDup_app_r _ _ Hnd))
+          as (Hw2 & Hfr2 & Hns2 & Hg2 & Hvd2 & Hd2 & HR2).
+        { intros n Hin Hin'. destruct (Hnsa n Hin') as [H|H].
+          - apply (Hfr n); [apply in_or_app; right; exact Hin|exact H].
+          - exact (NoDup_app_disj _ _ n Hnd H Hin). }
+        split; [exact Hw2|]. split; [eapply frame_trans; eassumption|]. split.
+        * rewrite one_names_cons. cbn [one_fold xbranch]. eapply names_sub_trans; eassumption.
+        * split; [exact Hg2|]. split; [|split].
+          -- intros rv [<-|Hin]; [|exact (Hvd2 rv Hin)]. cbn [snd].
+             eapply vd_ok_mono; [exact (frame_mono sa s2 Hwa Hfr2)|exact Hvda].
+          -- unfold bs_deny. rewrite xpayloads_typed. cbn [existsb]. rewrite Hda. f_equal. exact Hd2.
+          -- intros T He Hp. cbn [AllP]. split.
+             ++ cbn [rv_rel xbranch]. exists vd. split; [left; reflexivity|].
+                apply HSa; [eapply ext_frame; eassumption|exact Hp].
+             ++ apply AllP_In. intros b' Hb'. eapply rv_rel_mono; [apply incl_tl, incl_refl|].
+                exact (proj1 (AllP_In _ _) (HR2 T He Hp) b' Hb').
+  Qed.
+
+  (* the uniformity condition of payloads_ok: every struct payload carries the enum's flag *)
+  Lemma payloads_uniform bs sc d :
+    payloads_ok bs = true -> In sc (xpayloads bs) -> struct_deny sc = Some d -> d = bs_deny bs.
+  Proof.
+    unfold payloads_ok, bs_deny. intros H Hin Hsd. apply andb_true_iff in H. destruct H as [_ H].
+    set (L := xpayloads bs) in *. clearbody L.
+    assert (Hall : forall d0 r, flat_map (fun sc => match struct_deny sc with Some d => [d] | None => [] end) L = d0 :: r ->
+                   forallb (Bool.eqb d0) r = true -> forall sc' d', In sc' L -> struct_deny sc' = Some d' -> d' = d0).
+    { intros d0 r HL Hr sc' d' Hin' Hsd'.
+      assert (Hd' : In d' (d0 :: r)).
+      { rewrite <- HL. apply in_flat_map. exists sc'. split; [exact Hin'|]. rewrite Hsd'. left. reflexivity. }
+      destruct Hd' as [<-|Hd']; [reflexivity|].
+      rewrite forallb_forall in Hr. symmetry. apply Bool.eqb_prop. exact (Hr d' Hd'). }
+    destruct (flat_map _ L) as [|d0 r] eqn:HL.
+    - exfalso. assert (Hd : In d (@nil bool)); [|exact Hd].
+      rewrite <- HL. apply in_flat_map. exists sc. split; [exact Hin|]. rewrite Hsd. left. reflexivity.
+    - pose proof (Hall d0 r eq_refl H) as Hu. rewrite (Hu sc d Hin Hsd).
+      destruct d0.
+      + symmetry. apply existsb_exists.
+        assert (Hex : exists sc', In sc' L /\ struct_deny sc' = Some true).
+        { assert (Hd0 : In true (flat_map (fun sc => match struct_deny sc with Some d => [d] | None => [] end) L))
+            by (rewrite HL; left; reflexivity).
+          apply in_flat_map in Hd0. destruct Hd0 as (sc' & Hin' & Hx). exists sc'. split; [exact Hin'|].
+          destruct (struct_deny sc') as [[|]|]; [reflexivity|destruct Hx as [Hx|[]]; discriminate Hx|destruct Hx]. }
+        destruct Hex as (sc' & Hin' & Hsd'). exists sc'. split; [exact Hin'|]. unfold own_deny. rewrite Hsd'. reflexivity.
+      + symmetry. apply Bool.not_true_is_false. intro Hex. apply existsb_exists in Hex.
+        destruct Hex as (sc' & Hin' & Hod). unfold own_deny in Hod.
+        destruct (struct_deny sc') as [d'|] eqn:Hsd'; [|discriminate]. subst d'.
+        pose proof (Hu sc' true Hin' Hsd'). discriminate.
+  Qed.
+
+  Lemma combine_variants (rvs : list (ustring * vdetails)) : forall ids, length ids = length rvs ->
+    let vs := map (fun p => mkVariant (fst (fst p)) (snd p) (snd (fst p))) (combine rvs ids) in
+    map v_raw vs = map fst rvs /\ map v_ident vs = ids /\
+    (forall x vd, In (x, vd) rvs -> exists vr, In vr vs /\ v_raw vr = x /\ v_det vr = vd) /\
+    (forall vr, In vr vs -> In (v_raw vr, v_det vr) rvs).
+  Proof.
+    induction rvs as [|[x vd] rvs IH]; intros [|i ids] Hl; try discriminate; cbn [combine map fst snd].
+    - repeat split; try reflexivity; intros; contradiction.
+    - injection Hl as Hl. destruct (IH ids Hl) as (H1 & H2 & H3 & H4). cbn zeta in *.
+      split; [cbn [v_raw]; f_equal; exact H1|]. split; [cbn [v_ident]; f_equal; exact H2|]. split.
+      + intros x' vd' [H|H].
+        * injection H as <- <-. eexists. split; [left; reflexivity|split; reflexivity].
+        * destruct (H3 x' vd' H) as (vr & Hin & Hr & Hd). exists vr. split; [right; exact Hin|split; assumption].
+      + intros vr [<-|H]; [left; reflexivity|right; exact (H4 vr H)].
+  Qed.
+
+  Lemma kind_shape items props req ap oneo k nm' s0 te s1
+      (Hfk : frag_kind cls D k items props req ap oneo = true)
       (IHitems : Forall SP items)
       (IHprops : Forall (fun kv => SP (snd kv)) props)
-      (IHap : OForall SP ap) :
-    conv_kind cls (ref_id D) cvf k nm' items props req ap s0 = Some (te, s1) -> wf s0 -> nD < st_next s0 ->
+      (IHap : OForall SP ap)
+      (IHone : OForall (Forall (PayP SP)) oneo)
+      (Hext : match k with KOne tg => tg = TagExternal /\ exists bs names, oneo = Some bs /\ xall_names bs = Some names /\ NoDup names | _ => True end) :
+    conv_kind cls (ref_id D) cvf k nm' items props req ap oneo s0 = Some (te, s1) -> wf s0 -> nD < st_next s0 ->
     ents_ok nD (lk s0) ->
-    NoDup (own_names cls nm' k ++ sub_names cls k nm' items props ap) ->
-    (forall n, In n (own_names cls nm' k ++ sub_names cls k nm' items props ap) -> ~ In n (nkeys s0)) ->
-    KSPost items props req ap k nm' s0 te s1.
+    NoDup (own_names cls nm' k ++ sub_names cls k nm' items props ap oneo) ->
+    (forall n, In n (own_names cls nm' k ++ sub_names cls k nm' items props ap oneo) -> ~ In n (nkeys s0)) ->
+    KSPost items props req ap oneo k nm' s0 te s1.
   Proof.
     intros Hc Hw Hnx Hg Hnd Hfr.
-    destruct k as [| | | |mx mn pat|r|raws|deny| | |c|c|r|]; cbn [conv_kind] in Hc.
+    destruct k as [| | | |mx mn pat|r|raws|deny| | |c|c|r| |tg]; cbn [conv_kind] in Hc.
     - injection Hc as <- <-. apply scalar_kspost; try reflexivity; try assumption; try exact I. intros T t H; exact H.
     - injection Hc as <- <-. apply scalar_kspost; try reflexivity; try assumption; try exact I. intros T t H; exact H.
     - injection Hc as <- <-. apply scalar_kspost; try reflexivity; try assumption; try exact I. intros T t H; exact H.
@@ -558,7 +885,8 @@ Section ShapeMain.
       destruct (assign DString _) as [sid s1'] eqn:Ha.
       destruct (type_name cls nm') as [n|] eqn:Hn; [|discriminate]. injection Hc as <- <-.
       destruct (str_assigned pat s0 sid s1' Ha Hw Hnx Hg) as (Hw3 & Hf3 & Hns3 & Hg3 & Hid3 & Hl3).
-      split; [exact Hw3|exact Hf3|cbn [own_names]; rewrite Hn; reflexivity|exact Hns3|exact Hg3|exact Hid3|exact I|].
+      split; [exact Hw3|exact Hf3|cbn [own_names]; rewrite Hn; reflexivity|exact Hns3|exact Hg3|exact Hid3|exact I|exact I
+             |intros T _ _; exact I|].
       intros T He Hp t Hr. cbn [realizes] in Hr. apply get_det_of in Hr. cbn [kshape].
       exists n, sid. split; [exact Hr|exact (get_det_of _ _ _ _ (He _ _ Hl3))].
     - injection Hc as <- <-. apply scalar_kspost; try reflexivity; try assumption; try exact I. intros T t H; exact H.
@@ -567,8 +895,9 @@ Section ShapeMain.
       unfold mk_enum in Hc.
       destruct (Sanitize.variant_idents cls raws) as [ids| |] eqn:Hv; try discriminate.
       injection Hc as <- <-.
-      split; [exact Hw|apply frame_refl|cbn [own_names]; rewrite Hn; reflexivity|apply names_sub_refl|exact Hg| |exact I|].
-      + cbn [te_ok det_ok]. intros v Hvin. apply in_map_iff in Hvin. destruct Hvin as (pp & <- & _). reflexivity.
+      split; [exact Hw|apply frame_refl|cbn [own_names]; rewrite Hn; reflexivity|apply names_sub_refl|exact Hg| |exact I|exact I
+             |intros T _ _; exact I|].
+      + cbn [te_ok det_ok]. intros v Hvin. apply in_map_iff in Hvin. destruct Hvin as (pp & <- & _). exact I.
       + intros T He Hp t Hr. cbn [realizes] in Hr. apply get_det_of in Hr. cbn [kshape].
         exists n, ids. split; [exact Hv|exact Hr].
     - (* KStruct *)
@@ -577,6 +906,7 @@ Section ShapeMain.
       destruct (Sanitize.unique (map p_name (sort_props ps))) eqn:Hun; [|discriminate].
       injection Hc as <- <-.
       cbn [frag_kind] in Hfk. apply andb_true_iff in Hfk. destruct Hfk as [Hfk Hfp].
+      apply andb_true_iff in Hfk. destruct Hfk as [Hfk _].
       apply andb_true_iff in Hfk. destruct Hfk as [Hfk _]. apply andb_true_iff in Hfk. destruct Hfk as [Hks _].
       cbn [own_names sub_names] in Hnd, Hfr. rewrite Hn in Hnd, Hfr.
       destruct (conv_props_shape base req props IHprops Hfp s0 ps sa Hcp Hw Hnx Hg) as (Hwa & Hfa & Hnsa & Hga & HR).
@@ -590,19 +920,21 @@ Section ShapeMain.
         apply keys_sorted_NoDup. exact Hks. }
       assert (Hndn : NoDup (map p_name (sort_props ps))) by (apply unique_true_iff; exact Hun).
       assert (Hin' : forall p, In p (sort_props ps) -> In p ps) by (intros p Hp; eapply Permutation_in; eassumption).
+      assert (HSS : forall T, ext sa T -> DefsNamed T -> struct_sh cls T (shape cls D T) props req (sort_props ps)).
+      { intros T He Hp. split; [exact Hndw|]. split; [exact Hndn|]. split.
+        * apply AllP_In. intros kv Hkv. destruct (Forall2_In_l _ _ _ _ HR Hkv) as (p & Hpin & _ & _ & HM).
+          exists p. split; [eapply Permutation_in; [apply Permutation_sym; exact Hperm|exact Hpin]|]. exact (HM T He Hp).
+        * intros p Hpin. destruct (Forall2_In_r _ _ _ _ HR (Hin' p Hpin)) as (kv & Hkv & Hwp & _).
+          exists kv. split; assumption. }
       split; [exact Hwa|exact Hfa|cbn [own_names]; rewrite Hn; reflexivity|cbn [sub_names]; rewrite Hn; exact Hnsa
-             |exact Hga| |exact I|].
+             |exact Hga| |exact I|reflexivity|exact HSS|].
       + cbn [te_ok det_ok]. split.
         * unfold RoundTrip.props_ok. rewrite (rt_nodup_ustr_NoDup _ Hndn), (rt_nodup_ustr_NoDup _ Hndw), !andb_true_r.
           apply forallb_forall. intros p Hp. destruct (Forall2_In_r _ _ _ _ HR (Hin' p Hp)) as (kv & _ & Hwp & _).
           unfold RoundTrip.no_flatten. unfold wire_name in Hwp. destruct (p_rename p); [reflexivity|reflexivity|discriminate].
         * intros p Hp. destruct (Forall2_In_r _ _ _ _ HR (Hin' p Hp)) as (kv & _ & _ & Hid & _). exact Hid.
       + intros T He Hp t Hr. cbn [realizes] in Hr. apply get_det_of in Hr. cbn [kshape].
-        exists base, (sort_props ps). split; [exact Hr|]. split; [exact Hndw|]. split; [exact Hndn|]. split.
-        * apply AllP_In. intros kv Hkv. destruct (Forall2_In_l _ _ _ _ HR Hkv) as (p & Hpin & _ & _ & HM).
-          exists p. split; [eapply Permutation_in; [apply Permutation_sym; exact Hperm|exact Hpin]|]. exact (HM T He Hp).
-        * intros p Hpin. destruct (Forall2_In_r _ _ _ _ HR (Hin' p Hpin)) as (kv & Hkv & Hwp & _).
-          exists kv. split; assumption.
+        exists base, (sort_props ps). split; [exact Hr|exact (HSS T He Hp)].
     - (* KMap *)
       destruct (assign DString s0) as [kid sk] eqn:Hak.
       assert (Hfk0 : forall n, det_name DString = Some n -> ~ In n (nkeys s0)) by (intros n Hn0; discriminate).
@@ -611,14 +943,14 @@ Section ShapeMain.
       cbn [realizes] in Hrk. cbn [det_name] in Hnsk.
       cbn [own_names sub_names app] in Hnd, Hfr.
       assert (Hfin : forall s3 vid, wf s3 -> frame sk s3 -> ents_ok nD (lk s3) -> idok nD (lk s3) vid ->
-                 names_sub sk s3 (sub_names cls KMap nm' items props ap) ->
+                 names_sub sk s3 (sub_names cls KMap nm' items props ap oneo) ->
                  (forall T, ext s3 T -> DefsNamed T ->
                     match ap with None => has T vid DJsonValue | Some (SBool _) => has T vid DJsonValue
                                 | Some sa => shape cls D T sa vid end) ->
-                 KSPost items props req ap KMap nm' s0 (DMap kid vid) s3).
+                 KSPost items props req ap oneo KMap nm' s0 (DMap kid vid) s3).
       { intros s3 vid Hw3 Hf3 Hg3 Hid3 Hns3 HV.
         pose proof (frame_keeps _ _ _ _ Hwk Hf3 Hrk) as Hk3.
-        split; [exact Hw3|eapply frame_trans; eassumption|reflexivity| |exact Hg3| |exact I|].
+        split; [exact Hw3|eapply frame_trans; eassumption|reflexivity| |exact Hg3| |exact I|exact I|intros T _ _; exact I|].
         - intros n Hin. destruct (Hns3 n Hin) as [H|H]; [|right; exact H]. destruct (Hnsk n H) as [H'|[]]. left. exact H'.
         - cbn [te_ok det_ok]. split; [eexists; split; [exact Hk3|reflexivity]|exact Hid3].
         - intros T He Hp t Hr. cbn [realizes] in Hr. apply get_det_of in Hr. cbn [kshape].
@@ -648,7 +980,7 @@ Section ShapeMain.
       cbn [frag_kind] in Hfk. cbn [own_names sub_names app] in Hnd, Hfr.
       destruct (conv_items_shape nm' items IHitems Hfk 0%nat s0 ts s1' Hci Hw Hnx Hg Hnd Hfr)
         as (Hw1 & Hf1 & Hns1 & Hg1 & Hid1 & HS1).
-      split; [exact Hw1|exact Hf1|reflexivity|exact Hns1|exact Hg1|exact Hid1|exact I|].
+      split; [exact Hw1|exact Hf1|reflexivity|exact Hns1|exact Hg1|exact Hid1|exact I|reflexivity|exact HS1|].
       intros T He Hp t Hr. cbn [realizes] in Hr. apply get_det_of in Hr. cbn [kshape].
       exists ts. split; [exact Hr|exact (HS1 T He Hp)].
     - (* KVec *)
@@ -659,46 +991,120 @@ Section ShapeMain.
       pose proof (Forall_inv IHitems) as HPit.
       cbn [own_names sub_names app flat_map] in Hnd, Hfr. rewrite app_nil_r in Hnd, Hfr.
       destruct (SP_assign _ HPit Hfk _ _ _ _ _ _ Hcv Hav Hw Hnx Hg Hnd Hfr) as [Hw3 Hf3 Hns3 Hg3 Hid3 HS3].
-      split; [exact Hw3|exact Hf3|destruct c; reflexivity| |exact Hg3|destruct c; exact Hid3|destruct c; exact I|].
+      split; [exact Hw3|exact Hf3|destruct c; reflexivity| |exact Hg3|destruct c; exact Hid3|destruct c; exact I
+             |destruct c; exact I|intros T _ _; destruct c; exact I|].
       + cbn [sub_names flat_map]. rewrite app_nil_r. exact Hns3.
       + intros T He Hp t Hr. cbn [kshape]. exists iid. split; [|exact (HS3 T He Hp)].
         destruct c; cbn [realizes seq_det] in Hr; exact (get_det_of _ _ _ _ Hr).
     - (* KVecAny *)
       destruct (assign DJsonValue (set_json s0)) as [iid s3] eqn:Hav. injection Hc as <- <-.
       destruct (json_assigned s0 iid s3 Hav Hw Hnx Hg) as (Hw3 & Hf3 & Hns3 & Hg3 & Hid3 & Hl3).
-      split; [exact Hw3|exact Hf3|destruct c; reflexivity|exact Hns3|exact Hg3|destruct c; exact Hid3|destruct c; exact I|].
+      split; [exact Hw3|exact Hf3|destruct c; reflexivity|exact Hns3|exact Hg3|destruct c; exact Hid3|destruct c; exact I
+             |destruct c; exact I|intros T _ _; destruct c; exact I|].
       intros T He Hp t Hr. cbn [kshape]. exists iid. split; [|exact (get_det_of _ _ _ _ (He _ _ Hl3))].
       destruct c; cbn [realizes seq_det] in Hr; exact (get_det_of _ _ _ _ Hr).
     - (* KRef *)
       destruct (ref_id D r) as [i|] eqn:Hri; [|discriminate]. injection Hc as <- <-.
       destruct (ref_id_range D r i Hri) as [Hr1 Hr2].
-      split; [exact Hw|apply frame_refl|reflexivity|apply names_sub_refl|exact Hg|split; assumption|exact I|].
+      split; [exact Hw|apply frame_refl|reflexivity|apply names_sub_refl|exact Hg|split; assumption|exact I|exact I
+             |intros T _ _; exact I|].
       intros T He Hp t Hr. cbn [realizes] in Hr. subst t. cbn [kshape]. split; [exact Hri|].
       destruct (Hp i Hr1 Hr2) as (d & Hd & Hn). exists d. split; assumption.
     - (* KAny *)
       injection Hc as <- <-.
       split; [apply wf_set_json; exact Hw|split; [cbn; lia|reflexivity]|reflexivity|intros n Hin; left; exact Hin
-             |exact Hg|exact I|exact I|].
+             |exact Hg|exact I|exact I|exact I|intros T _ _; exact I|].
       intros T He Hp t Hr. cbn [realizes] in Hr. exact (get_det_of _ _ _ _ Hr).
+    - (* KOne, externally tagged *)
+      destruct Hext as (-> & bs & names & -> & Hnames & Hndn).
+      destruct (type_name cls nm') as [n|] eqn:Hn; [|discriminate].
+      destruct (conv_xbranches cvf nm' bs s0) as [[[rvs deny] sa]|] eqn:Hcb; [|discriminate].
+      unfold mk_tagged in Hc.
+      pose proof (conv_xbranches_names cvf nm' bs names s0 rvs deny sa Hnames Hcb) as Hfst. rewrite Hfst in Hc.
+      destruct (Sanitize.variant_idents cls names) as [ids| |] eqn:Hv; try discriminate.
+      injection Hc as <- <-.
+      cbn [frag_kind] in Hfk. rewrite Hnames in Hfk.
+      apply andb_true_iff in Hfk. destruct Hfk as [Hfk Hfr']. apply andb_true_iff in Hfk. destruct Hfk as [_ Hpay].
+      cbn [own_names sub_names] in Hnd, Hfr. rewrite Hn in Hnd, Hfr.
+      assert (Hnn : forall sc, In sc (xpayloads bs) -> classify_s sc <> Some (false, KNull)).
+      { intros sc Hin Hcl. unfold payloads_ok in Hpay. apply andb_true_iff in Hpay. destruct Hpay as [Hpay _].
+        rewrite forallb_forall in Hpay. specialize (Hpay sc Hin). rewrite Hcl in Hpay. discriminate. }
+      destruct (conv_xbranches_shape nm' bs names IHone Hnames Hfr' Hnn s0 rvs deny sa Hcb Hw Hnx Hg (NoDup_app_r _ _ Hnd))
+        as (Hwa & Hfa & Hnsa & Hga & Hvda & Hda & HRa).
+      { intros x Hin. apply Hfr. apply in_or_app. right. exact Hin. }
+      assert (Hlen : length ids = length rvs).
+      { rewrite (variant_idents_length cls names ids Hv), <- Hfst. apply map_length. }
+      destruct (combine_variants rvs ids Hlen) as (Hraw & Hident & Hfind & Hback). cbn zeta in *.
+      set (vs := map (fun p => mkVariant (fst (fst p)) (snd p) (snd (fst p))) (combine rvs ids)) in *.
+      split; [exact Hwa|exact Hfa|cbn [own_names]; rewrite Hn; reflexivity|cbn [sub_names]; exact Hnsa|exact Hga| |exact I|exact I
+             |intros T _ _; exact I|].
+      + cbn [te_ok det_ok]. intros vr Hvr. pose proof (Hvda _ (Hback vr Hvr)) as Hok. cbn [snd] in Hok.
+        destruct (v_det vr); exact Hok.
+      + intros T He Hp t Hr. cbn [realizes] in Hr. apply get_det_of in Hr. cbn [kshape].
+        exists n, vs, deny, (if forallb (fun p => match snd p with VSimple => true | _ => false end) rvs
+                             then [AllSimpleVariants] else []), names, ids.
+        split; [exact Hr|]. split; [exact Hnames|]. split; [exact Hndn|]. split; [exact Hv|].
+        split; [exact (eq_trans Hraw Hfst)|]. split; [exact Hident|].
+        apply AllP_In. intros b Hb. pose proof (proj1 (AllP_In _ _) (HRa T He Hp) b Hb) as Hrel.
+        destruct b as [|bty bfmt benum bcst bnv bsv bik bitems bai bmni bmxi buq bprops breq bap bmnp bmxp ballo banyo boneo bno bref bdflt btitle];
+          [exact I|]. cbn [rv_rel branch_sh] in *.
+        assert (Hsimple : (forall raws, xsimple (SObj bty bfmt benum bcst bnv bsv bik bitems bai bmni bmxi buq bprops breq bap bmnp bmxp ballo banyo boneo bno bref bdflt btitle) = Some raws ->
+                           forall x, In x raws -> In (x, VSimple) rvs) ->
+                          forall raws, xsimple (SObj bty bfmt benum bcst bnv bsv bik bitems bai bmni bmxi buq bprops breq bap bmnp bmxp ballo banyo boneo bno bref bdflt btitle) = Some raws ->
+                          forall x, In x raws -> exists vr, In vr vs /\ v_raw vr = x /\ v_det vr = VSimple).
+        { intros H raws Hx x Hin. exact (Hfind x VSimple (H raws Hx x Hin)). }
+        destruct bprops as [|[v sc] [|]]; try exact (Hsimple Hrel).
+        destruct Hrel as (vd & Hin & Hpsh). destruct (Hfind v vd Hin) as (vr & Hvr & Hrw & Hdt).
+        exists vr. split; [exact Hvr|]. split; [exact Hrw|]. rewrite Hdt.
+        (* the enum's flag is the struct payload's own flag *)
+        assert (Hscin : In sc (xpayloads bs)).
+        { clear - Hb Hnames. revert names Hnames Hb. induction bs as [|b0 r IH]; intros names Hn Hb; [destruct Hb|].
+          destruct (xall_names_cons b0 r names Hn) as (l & rest & Hb0 & Hr & _).
+          destruct Hb as [->|Hb].
+          - destruct (xnames_cases _ l Hb0) as [(es & He & _)|(v' & sc' & He & _)]; [discriminate He|].
+            pose proof He as He'. rewrite He, xpayloads_typed. left. unfold xbranch in He'. inversion He'. reflexivity.
+          - destruct (xnames_cases _ l Hb0) as [(es & -> & _)|(v' & sc' & -> & _)].
+            + rewrite xpayloads_simple. exact (IH rest Hr Hb).
+            + rewrite xpayloads_typed. right. exact (IH rest Hr Hb). }
+        destruct vd as [|t'|ts|ps]; cbn [payload_sh] in *; try exact Hpsh.
+        destruct Hpsh as [Hcl Hss].
+        assert (Hod : own_deny sc = deny).
+        { rewrite Hda. apply (payloads_uniform bs sc (own_deny sc) Hpay Hscin).
+          unfold struct_deny, own_deny, struct_deny. rewrite Hcl. reflexivity. }
+        rewrite <- Hod. split; assumption.
   Qed.
 
   Lemma conv_SP : forall s, SP s.
   Proof.
-    apply schema_ind'.
+    apply schema_ind_x.
     - intros b Hf. discriminate Hf.
     - intros ty fmt enum cst nv sv ik items ai mni mxi uq props req ap mnp mxp allo anyo oneo no ref dflt title
-             IHitems _ IHprops IHap _ _ _ _.
+             IHitems IHprops IHap IHone.
       intros Hf nm s0 te s1 Hc Hw Hnx Hg Hnd Hfr.
-      pose proof Hf as Hfi. apply frag_obj_inv in Hfi. destruct Hfi as (nl & k & Hcl & _).
-      cbn [frag] in Hf. rewrite Hcl in Hf. change (frag_kind cls D k items props req ap = true) in Hf.
+      pose proof Hf as Hfi. apply frag_obj_inv in Hfi. destruct Hfi as (nl & k & Hcl & _ & _ & _ & Hone & _).
+      cbn [frag] in Hf. rewrite Hcl in Hf. change (frag_kind cls D k items props req ap oneo = true) in Hf.
       cbn [conv] in Hc. rewrite Hcl in Hc.
       cbn [names_of] in Hnd, Hfr. rewrite Hcl in Hnd, Hfr.
+      change (NoDup (own_names cls (if nl then inner_name nm else nm) k ++
+                     sub_names cls k (if nl then inner_name nm else nm) items props ap oneo)) in Hnd.
+      change (forall n, In n (own_names cls (if nl then inner_name nm else nm) k ++
+                     sub_names cls k (if nl then inner_name nm else nm) items props ap oneo) -> ~ In n (nkeys s0)) in Hfr.
+      assert (Hext : match k with
+                     | KOne tg => tg = TagExternal /\ exists bs names, oneo = Some bs /\ xall_names bs = Some names /\ NoDup names
+                     | _ => True end).
+      { destruct k; try exact I. destruct Hone as (_ & bs & ->).
+        pose proof Hcl as Hcases. apply classify_cases in Hcases.
+        destruct Hcases as [(l & tt & _ & _ & _ & Hk)|(_ & _ & _ & _ & _ & _ & _ & _ & _ & _ & _ & _ & _ & [(r & _ & Hk)|[(_ & Hk)|(bs' & tg' & Hbs & _ & Hk & Hok)]])];
+          try discriminate Hk.
+        - apply kind_of_type_inv in Hk. destruct Hk as (_ & _ & _ & _ & _ & _ & _ & []).
+        - injection Hk as ->. injection Hbs as <-. destruct (one_kind_external bs tg' Hok) as (-> & names & Hn & Hndn).
+          split; [reflexivity|]. exists bs, names. repeat split; assumption. }
       destruct nl; cbn [conv_node] in Hc.
-      + destruct (conv_kind cls (ref_id D) cvf k (inner_name nm) items props req ap s0) as [[te' s1']|] eqn:Hck;
+      + destruct (conv_kind cls (ref_id D) cvf k (inner_name nm) items props req ap oneo s0) as [[te' s1']|] eqn:Hck;
           [|discriminate].
         destruct (assign te' s1') as [i s2] eqn:Ha. injection Hc as <- <-.
-        destruct (kind_shape items props req ap k (inner_name nm) s0 te' s1' Hf IHitems IHprops IHap Hck Hw Hnx Hg Hnd Hfr)
-          as [Hw1 Hf1 Hown Hns Hg1 Hte1 Hno HS].
+        destruct (kind_shape items props req ap oneo k (inner_name nm) s0 te' s1' Hf IHitems IHprops IHap IHone Hext Hck Hw Hnx Hg Hnd Hfr)
+          as [Hw1 Hf1 Hown Hns Hg1 Hte1 Hno _ _ HS].
         assert (Hfresh : forall n, det_name te' = Some n -> ~ In n (nkeys s1')).
         { intros n Hn Hin. unfold own_of in Hown. rewrite Hn in Hown.
           destruct (Hns n Hin) as [H|H].
@@ -707,7 +1113,7 @@ Section ShapeMain.
         assert (Hnx1 : nD < st_next s1') by (destruct Hf1 as [Hx _]; lia).
         destruct (assign_ok te' s1' i s2 Ha Hw1 Hfresh) as (Hw2 & Hf2 & Hr2 & _ & Hns2).
         destruct (assign_ents_ok nD te' s1' i s2 Ha Hw1 Hnx1 Hg1 Hte1 Hfresh) as (Hg2 & Hid2 & _).
-        split; [exact Hw2|eapply frame_trans; eassumption| |exact Hg2| |].
+        split; [exact Hw2|eapply frame_trans; eassumption| |exact Hg2| |exact I|intros T _ _; exact I|].
         * eexists. split; [cbn [names_of own_of det_name app]; rewrite Hcl; reflexivity|].
           eapply names_sub_weaken; [eapply names_sub_trans; eassumption|].
           rewrite Hown. unfold own_of. intros x Hx. apply in_app_or in Hx. apply in_or_app.
@@ -720,10 +1126,13 @@ Section ShapeMain.
         * intros T He Hp t Hr. cbn [realizes] in Hr. apply get_det_of in Hr. cbn [shape]. rewrite Hcl.
           exists i. split; [exact Hr|].
           apply (HS T (ext_frame _ _ T Hw1 Hf2 He) Hp i (realizes_ext _ _ _ _ Hr2 He)).
-      + destruct (kind_shape items props req ap k nm s0 te s1 Hf IHitems IHprops IHap Hc Hw Hnx Hg Hnd Hfr)
-          as [Hw1 Hf1 Hown Hns Hg1 Hte1 Hno HS].
-        split; [exact Hw1|exact Hf1| |exact Hg1|exact Hte1|].
+      + destruct (kind_shape items props req ap oneo k nm s0 te s1 Hf IHitems IHprops IHap IHone Hext Hc Hw Hnx Hg Hnd Hfr)
+          as [Hw1 Hf1 Hown Hns Hg1 Hte1 Hno Hkk Hpy HS].
+        split; [exact Hw1|exact Hf1| |exact Hg1|exact Hte1| | |].
         * eexists. split; [cbn [names_of]; rewrite Hcl, <- Hown; reflexivity|exact Hns].
+        * unfold te_kind. cbn [classify_s]. rewrite Hcl.
+          destruct te; try exact I; cbn [kkind] in Hkk; rewrite Hkk; reflexivity.
+        * intros T He Hp. specialize (Hpy T He Hp). unfold payload_of. destruct te; try exact I; exact Hpy.
         * intros T He Hp t Hr. cbn [shape]. rewrite Hcl. exact (HS T He Hp t Hr).
   Qed.
 
@@ -759,7 +1168,7 @@ Section ShapeMain.
     unfold conv_def in Hcd.
     destruct (cvf sch (NRequired d) s0) as [[te s1]|] eqn:Hc; [|discriminate].
     destruct (conv_SP sch Hf (NRequired d) s0 te s1 Hc Hw Hnx Hg (Hndn Hnd1))
-      as [Hw1 Hf1 (L & HL & Hns1) Hg1 Hte1 HS].
+      as [Hw1 Hf1 (L & HL & Hns1) Hg1 Hte1 _ _ HS].
     { intros x Hx. apply Hdisj. apply Hincl. right. exact Hx. }
     assert (Hnx1 : nD < st_next s1) by (destruct Hf1 as [Hx _]; lia).
     pose (Goal2 := fun (ent : details) (s2 : st) (en : ustring) =>
